@@ -15,6 +15,11 @@ UNITS = [
     {'name': 'rank_small@3_13', 'backend': 'verus', 'tier': 'quick'},
     {'name': 'shard_edge', 'backend': 'verus', 'tier': 'quick'},
     {'name': 'vfunc.get', 'backend': 'verus', 'tier': 'quick'},
+    {'name': 'vfilter.consistency@u64', 'backend': 'verus', 'tier': 'quick', 'c12': False},
+    {'name': 'vfilter.consistency@usize', 'backend': 'verus', 'tier': 'quick', 'c12': False},
+    {'name': 'vfilter.consistency@u8', 'backend': 'verus', 'tier': 'quick', 'c12': False},
+    {'name': 'vfilter.consistency@u16', 'backend': 'verus', 'tier': 'quick', 'c12': False},
+    {'name': 'vfilter.consistency@u32', 'backend': 'verus', 'tier': 'quick', 'c12': False},
     {'name': 'ef.builder', 'backend': 'verus', 'tier': 'quick'},
     {'name': 'ef.guards', 'backend': 'verus', 'tier': 'quick'},
     {'name': 'ef.scan', 'backend': 'verus', 'tier': 'quick'},
@@ -24,9 +29,10 @@ UNITS = [
     {'name': 'k.rcl_int', 'backend': 'kani', 'tier': 'quick', 'props': ['C09', 'C12']},
     {'name': 'k.rank_small_counters', 'backend': 'kani', 'tier': 'quick', 'props': ['C01', 'C12']},
     {'name': 'k.bfv_unaligned', 'backend': 'kani', 'tier': 'quick', 'props': ['C10', 'C12']},
-    {'name': 'k.bfv_apply', 'backend': 'kani', 'tier': 'thorough', 'props': ['C10', 'C14', 'C12']},
+    {'name': 'k.bfv_apply', 'backend': 'kani', 'tier': 'quick', 'props': ['C10', 'C14', 'C12']},
     {'name': 'k.atomic', 'backend': 'kani', 'tier': 'quick', 'props': ['C05', 'C14', 'C12']},
     {'name': 'k.sig_high_bits', 'backend': 'kani', 'tier': 'quick', 'props': ['C16']},
+    {'name': 'k.setup_graphs', 'backend': 'kani', 'tier': 'quick', 'props': ['C16']},
     {'name': 'k.mod2', 'backend': 'kani', 'tier': 'thorough', 'props': ['C12']},
     {'name': 'lenders.rewind', 'backend': 'verus', 'tier': 'quick', 'c12': False},
     {'name': 'lenders.next', 'backend': 'verus', 'tier': 'quick', 'c12': False},
@@ -43,6 +49,12 @@ UNITS = [
     {'name': 'bfv.iter@u16', 'backend': 'verus', 'tier': 'quick'},
     {'name': 'bfv.iter@u32', 'backend': 'verus', 'tier': 'quick'},
     {'name': 'bfv.iter@u128', 'backend': 'verus', 'tier': 'quick'},
+    {'name': 'bfv.eq@u64', 'backend': 'verus', 'tier': 'quick'},
+    {'name': 'bfv.eq@usize', 'backend': 'verus', 'tier': 'quick'},
+    {'name': 'bfv.eq@u8', 'backend': 'verus', 'tier': 'quick'},
+    {'name': 'bfv.eq@u16', 'backend': 'verus', 'tier': 'quick'},
+    {'name': 'bfv.eq@u32', 'backend': 'verus', 'tier': 'quick'},
+    {'name': 'bfv.eq@u128', 'backend': 'verus', 'tier': 'quick'},
     {'name': 'bfv.copy@u64', 'backend': 'verus', 'tier': 'quick'},
     {'name': 'bfv.copy@usize', 'backend': 'verus', 'tier': 'quick'},
     {'name': 'bfv.copy@u8', 'backend': 'verus', 'tier': 'quick'},
